@@ -106,6 +106,12 @@ def tried_fields(fn: ast.FunctionDef):
     return own, out, ends_none
 
 
+def trav_fields(F, cls):
+    """Fields that hold nodes for the purposes of traversal: the AST-valued ones plus `type_ignore*` (TypeIgnore nodes get an FST, are part
+    of the syntax-order children and are yielded by walk(); every other way of moving through the tree has to reach them too)."""
+    return [(f, t) for f, t in F[cls] if T.is_ast_type(t) or t.rstrip('?*') == 'type_ignore']
+
+
 def check_soc_vs_fields(ctx, F, rid):
     """_SYNTAX_ORDERED_CHILDREN vs FIELDS (used as R14.1a, R11.1 and R1.4)."""
     ctx.rule(rid, 'for every class of FIELDS: _SYNTAX_ORDERED_CHILDREN has an entry whose child sequence is exactly '
@@ -115,8 +121,8 @@ def check_soc_vs_fields(ctx, F, rid):
     for c in F:
         if CLASS_SINCE.get(c.name, 0) > ctx.ev.pyver[1]:
             continue
-        want = [f for f, t in T.ast_fields_of(F, c) if present(ctx, c, f)]
-        allowed_extra = {f for f, t in F[c] if t.rstrip('?*') == 'type_ignore'}
+        want = [f for f, t in trav_fields(F, c) if present(ctx, c, f)]
+        allowed_extra = set()
         if c not in soc:
             ctx.bad(rid, 'astutil', '_SYNTAX_ORDERED_CHILDREN', f'{c.name}: <missing>',
                     f'class {c.name} of FIELDS has no syntax-order entry; walk() would fall back to the generic builder')
@@ -190,7 +196,7 @@ def run(ctx):
     for c, fs in F.items():
         expected.add((c, None))
         for f, t in fs:
-            if T.is_ast_type(t):
+            if T.is_ast_type(t) or t.rstrip('?*') == 'type_ignore':
                 expected.add((c, f))
     tabs = {'NEXT_FUNCS': ('traverse_next', ctx.ev.get('traverse_next', 'NEXT_FUNCS')),
             'PREV_FUNCS': ('traverse_prev', ctx.ev.get('traverse_prev', 'PREV_FUNCS'))}
@@ -211,7 +217,7 @@ def run(ctx):
         for c in F:
             if c.name in INTERLEAVED:
                 continue
-            order = [(f, T.card(t)) for f, t in T.ast_fields_of(F, c)]
+            order = [(f, T.card(t)) for f, t in trav_fields(F, c)]
             seqd = order if fwd else order[::-1]
             names = [f for f, _ in seqd]
             for pos in range(-1, len(seqd)):
@@ -254,7 +260,7 @@ def run(ctx):
             if isinstance(tok, FuncTok) and tok.name not in ('_next_None', '_prev_None'):
                 by_func.setdefault(tok.key, []).append(k)
         for fk, keys in by_func.items():
-            sigs = {(tuple(T.ast_fields_of(F, c)), f) for c, f in keys if c in F}
+            sigs = {(tuple(trav_fields(F, c)), f) for c, f in keys if c in F}
             ctx.check('R14.1d', len(sigs) == 1, mod, fk.split('.', 1)[1], f'shared by {[(c.name, f) for c, f in keys]}',
                       'one generated function serves keys whose classes differ in field lists or whose field differs')
         # a (cls, f) -> _next_None entry is right only if nothing can follow f
